@@ -194,6 +194,57 @@ def r_clone_agree(cx):
                   "%s: forward and inverse compute the constant `%s` by different expressions: the inverse then inverts a "
                   "different mapping than the forward computes" % (c.names[0], nm),
                   cx.where(cx.f.fn(c.inv).d["span"]))
+    # like-named boolean switches built with `||` / `&&` (short-circuit joins are not compared as expressions above):
+    # the forward and the inverse function must at least build them from the same atoms
+    import guards
+    m_ = 0
+    for cpath, c in sorted(reg.ctors.items()):
+        if not c.fwd or not c.inv or c.fwd == c.inv:
+            continue
+        sets = {}
+        for role, fn in (("fwd", c.fwd), ("inv", c.inv)):
+            f = cx.f.fn(fn)
+            pts = pertuple.per_tuple_loops(f)
+            if not pts:
+                continue
+            first = min(p.header for p in pts)
+            for l, nm in f.name_of_local.items():
+                if l <= f.nargs or "bool" != str(f.local_ty(l)):
+                    continue
+                defs = f.defs().get(l, ())
+                if not defs or any(f.innermost_loop(r[0]) is not None for r in defs):
+                    continue
+                v = f.local_value(l, (first, 0))
+                if v[0] == "unknown":
+                    v = _join_value(f, l, defs, first)
+                if (v is None or v[0] == "unknown") and len(defs) == 1:
+                    v = f._def_value_fwd(l, defs[0])      # dead at the loop, defined once: its value at the definition
+                if v is None or v[0] == "unknown":
+                    # dead at the loop: evaluate it where the arms that define it join
+                    import slicing
+                    ip = slicing.ipdom(f)
+                    blocks = sorted({r[0] for r in defs})
+                    dom = None
+                    for cand in sorted(f.reachable()):
+                        if all(f.dominates(cand, b) for b in blocks) and f.term(cand)["k"] == "switch":
+                            if dom is None or f.dominates(dom, cand):
+                                dom = cand
+                    j = ip.get(dom) if dom is not None else None
+                    v = f.local_value(l, (j, 0)) if j is not None and j != -1 else None
+                if v is None or mir.strip_refs(v)[0] in ("unknown", "loopphi", "mod"):
+                    continue
+                ats = frozenset(shape(a) for a in guards.atoms(f, v))
+                sets.setdefault(nm, {})[role] = ats
+        for nm, d in sorted(sets.items()):
+            if "fwd" in d and "inv" in d:
+                m_ += 1
+                ok = d["fwd"] == d["inv"]
+                cx.ob("R-CLONE-AGREE", "%s/%s/atoms" % (c.names[0], nm), ok,
+                      "%s: forward and inverse build the switch `%s` from the same tests" % (c.names[0], nm) if ok else
+                      "%s: the switch `%s` is built from different tests in the forward and in the inverse function (one of "
+                      "them forgets a case): the inverse then undoes another variant of the mapping than the forward applied"
+                      % (c.names[0], nm), cx.where(cx.f.fn(c.inv).d["span"]))
+    cx.count("R-CLONE-AGREE", "cloned_switches", m_)
     cx.count("R-CLONE-AGREE", "cloned_bindings", n)
 
 
